@@ -5,6 +5,7 @@ from vcommon import *
 FRONT_TRUSTED = TRUSTED_BASE_COMMON + [
     "hand-written executable models of the tokenizer (over a model of bufio.Reader), parser, flag-expression evaluator, formatter and validator "
     "(coq/front/*.v): modelled, not verified; tied to /repo by running both on the same inputs",
+    "translator T6 (go/cmd/t6): token.go + tokenize.go -> coq/gen/TokTable.v (kind numbers, keywords, token tree, skipped bytes), against which front/TokTie.v checks the tokenizer model's tables",
     "the add-only verif hook VerifNextDump (verif_hooks.go, build tag verif) for the token stream; everything else goes through ReadFile / Format / Validate",
     "ASCII inputs (Unicode letter classes are outside the model); strconv.ParseInt / ParseUint / Unquote as documented",
 ]
